@@ -264,6 +264,10 @@ def _lint(ctx, F):
             bad.append((sym, A))
     ctx.check(not bad, "R4", "every energy-dependent table belongs to a nuclide of the main table", f"{bad}", "periodictable/nsf_tables.py",
               sample={"tables": len(ed)})
+    import math
+    incons = [(k, r) for k, vals in ed.items() for r in vals if abs(math.hypot(r[1], r[2]) - r[3]) > 0.011]
+    ctx.check(not incons, "R4", "every row of the energy-dependent tables is self-consistent: |a| = hypot(Re a, Im a) to the printed precision",
+              f"inconsistent rows {incons[:3]} (a mistyped cell)", "periodictable/nsf_tables.py")
     lu = [k for k in keys if k.startswith("71-Lu")]
     ctx.check({"71-Lu", "71-Lu-175", "71-Lu-176"} <= set(lu), "R4", "Lu, Lu-175 and Lu-176 rows exist (natural Lu is mixed from them)", f"{lu}", site)
     ctx.floor("R4", 12)
